@@ -248,7 +248,7 @@ check(
           "(plus sampled to 1e5) and parameters gauss alpha in [0.5,6], tukey r in [-0.5,1.5], kaiser beta in [0,40]: closed form in long "
           "double (1e-12), range [0,1], symmetry, periodic(n) == first n of symmetric(n+1). distinct = (function, parameters)."),
     exhaustive_subspaces={"quick": ["all fir1 orders 2..256", "all window lengths 3..512"], "thorough": ["all fir1 orders 2..256", "all window lengths 3..512"]},
-    min_distinct={"quick": 20000, "thorough": 40000},
+    min_distinct={"quick": 20000, "thorough": 30000},
     min_obs={"quick": {"mask_checks": 300, "wrong_window_length_cases": 1000}, "thorough": {"mask_checks": 3000, "wrong_window_length_cases": 1000}},
     technique="runtime monitor: closed-form window references and a long-double frequency-response evaluator as oracle over the enumerated orders/lengths",
     level_text=("Designs are executed for every order / length of the quantifier and compared with closed forms and response masks "
@@ -265,7 +265,7 @@ check(
           "exactly, y equals sum_j c_j x[k-j] with c = coeffs() read BEFORE the call ((L+8)*eps*sum|c||x|), coefficients bitwise unchanged "
           "while locked, coefficient trajectory within 1e-7 of a long-double reference recursion; the same stream in random frames must give "
           "the same y/e; locked filter == fixed FIR with coeffs(); noise-free convergence of NLMS (after ceil(60L/(mu(2-mu))) samples) and RLS "
-          "(40L+200, or 6000 for lambda=1) to misalignment < 1e-6; real RLS after N<=200 samples vs the long-double solution of the "
+          "(40L+200, extended until the initial regularisation lambda^N/load has decayed below 3e-4 of the data term) to misalignment < 1e-6; real RLS after N<=200 samples vs the long-double solution of the "
           "exponentially weighted, diagonally regularised normal equations. distinct = (configuration, input bits)."),
     min_distinct={"quick": 600, "thorough": 1800},
     min_obs={"quick": {"locked_samples": 5000, "adapting_samples": 20000, "convergence_runs": 60, "rls_batch_runs": 30},
@@ -275,7 +275,7 @@ check(
                 "the error identity and the lock are judged per sample; convergence and the least-squares equivalence are judged on "
                 "complete runs. Held on the samples counted in the evidence."),
     level_note="trusted: long double reference recursions written from the textbook (and the header comments); coeffs() as the observation point",
-    assumptions=["convergence horizons are the harness's bounded-progress restatement: 60L/(mu(2-mu)) samples for NLMS, 40L+200 (6000 for lambda=1) for RLS"],
+    assumptions=["convergence horizons are the harness's bounded-progress restatement: 60L/(mu(2-mu)) samples for NLMS, 40L+200 samples, extended for lambda close to 1 until the regularisation bias is below 3e-4, for RLS"],
 )
 
 check(
@@ -425,7 +425,7 @@ check(
     runs=[dict(harness="C20_dynamics", flavour="plain")],
     rule=("random configurations (thresholds -50..0 dB, ratios 1..50, knee widths 0..20 dB, attack/release 0..4 s, sample rates 8k..192k): "
           "with zero attack and release, Compressor and Limiter on input levels -100..+20 dB plus a 0.01 dB grid and 1e-7 dB steps around both "
-          "knee edges vs the long-double static characteristic (1e-9 dB), gain in [0,1], monotone, continuous across the knee edges; "
+          "knee edges vs the long-double static characteristic (1e-9 dB), gain in [0,1+1e-12], monotone, continuous across the knee edges; "
           "arbitrary signals (noise, bursts, steps, silence) of 2e4 (quick) / 1e5 (thorough) samples through Compressor, Limiter and "
           "NoiseGate: gain in [0,1], |out| <= |in|, zero-attack Limiter never above its threshold; level steps: smoothed gain monotone with "
           "10-90% time == configured attack/release time (+-2 samples +-1%); Agc with targets 0.01..100, inputs over 80 dB, averaging "
